@@ -29,7 +29,8 @@ import warnings
 from vlib import core
 
 ID = "C08"
-LEVEL = "differential"
+READY = True
+LEVEL = "exploration"
 RULE = ("one evaluation = one oracle judgement (clause a or b per source text; clause c and d per annotated "
         "node). A node is non-trivial when its region text spans several lines, contains a comment or a "
         "backslash continuation, or is wider than the interpreter's span (parentheses attributed to it); "
